@@ -120,7 +120,12 @@ def _rational(d, mask):
             nums.append(0)
             dens.append(1)
             continue
-        if x != x or x in (float('inf'), float('-inf')) or abs(x) > 1e6:
+        if x != x or x in (float('inf'), float('-inf')):
+            # non-finite cells: n/0 with n = 0 (nan), 1 (+inf), -1 (-inf)
+            nums.append(0 if x != x else (1 if x > 0 else -1))
+            dens.append(0)
+            continue
+        if abs(x) > 1e6:
             return None
         fr = Fraction(x).limit_denominator(100)
         if abs(float(fr) - x) > 2e-6 * max(1.0, abs(x)):
